@@ -945,6 +945,92 @@ func c16fleet(rep *vh.Report, seed uint64) {
 	}
 }
 
+// c16housekeepingWindow: a node that knows 40 000 senders (a busy fleet link) when its 30 s housekeeping runs, and 3 000 NEW
+// senders whose first heartbeats arrive during the 300 ms around that instant. Each of them speaks again 1.5 s later: it
+// was served moments ago, so nothing is requested again and no second event is raised.
+func c16housekeepingWindow(rep *vh.Report) {
+	tr := fake.NewTransport("hk")
+	node := &gomavlib.Node{Endpoints: []gomavlib.EndpointConf{gomavlib.EndpointCustom{ReadWriteCloser: tr}}, Dialect: testDialect, OutVersion: gomavlib.V2, OutSystemID: 9,
+		HeartbeatDisable: true, StreamRequestEnable: true}
+	if err := node.Initialize(); err != nil {
+		rep.HarnessError(err.Error())
+		return
+	}
+	t0 := time.Now()
+	type sid struct{ sys, comp byte }
+	var mu sync.Mutex
+	evs := map[sid][]time.Duration{}
+	done := make(chan struct{})
+	go func() {
+		defer close(done)
+		for e := range node.Events() {
+			if sr, ok := e.(*gomavlib.EventStreamRequested); ok {
+				mu.Lock()
+				k := sid{sr.SystemID, sr.ComponentID}
+				evs[k] = append(evs[k], time.Since(t0))
+				mu.Unlock()
+			}
+		}
+	}()
+	sleepUntil := func(d time.Duration) { time.Sleep(time.Until(t0.Add(d))) }
+	// the fleet the node already knows
+	sleepUntil(12 * time.Second)
+	for comp := 1; comp <= 160; comp++ {
+		for sys := 1; sys <= 250; sys++ {
+			tr.Feed(hbFrame(byte(sys), byte(comp), 3, 0))
+		}
+		for tr.Pending() > 200000 {
+			time.Sleep(time.Millisecond)
+		}
+	}
+	// new senders around the housekeeping instant
+	sleepUntil(29800 * time.Millisecond)
+	var late []sid
+	for i := 0; time.Since(t0) < 30300*time.Millisecond && i < 250*80; i++ {
+		k := sid{byte(1 + i%250), byte(170 + i/250)}
+		late = append(late, k)
+		tr.Feed(hbFrame(k.sys, k.comp, 3, 0))
+		if i%8 == 7 {
+			time.Sleep(100 * time.Microsecond)
+		}
+	}
+	sleepUntil(31800 * time.Millisecond)
+	for _, k := range late {
+		tr.Feed(hbFrame(k.sys, k.comp, 3, 0))
+	}
+	waitFor(func() bool { return tr.Pending() == 0 }, func() int64 { return int64(tr.Pending()) }, 500*time.Millisecond)
+	time.Sleep(200 * time.Millisecond)
+	if !safeClose(rep, node) {
+		return
+	}
+	<-done
+	rep.Eval(1)
+	rep.Count("housekeeping_window_runs", 1)
+	rep.Count("senders_first_seen_around_the_housekeeping_instant", len(late))
+	mu.Lock()
+	defer mu.Unlock()
+	repeated, unserved := 0, 0
+	var first string
+	for _, k := range late {
+		ts := evs[k]
+		switch {
+		case len(ts) == 0:
+			unserved++
+		case len(ts) > 1 && ts[1]-ts[0] < 29*time.Second:
+			repeated++
+			if first == "" {
+				first = fmt.Sprintf("sender (%d,%d): events %v and %v after the node started", k.sys, k.comp, ts[0].Round(time.Millisecond), ts[1].Round(time.Millisecond))
+			}
+		}
+	}
+	if repeated > 0 {
+		rep.Violation("what=sr-repeat", fmt.Sprintf("%d of %d senders first seen while the node did its 30 s housekeeping (40 000 senders known) were sent the stream requests again on their next heartbeat 1.5 s later; %s", repeated, len(late), first), nil)
+	}
+	if unserved > 0 {
+		rep.Violation("what=sr-event", fmt.Sprintf("%d of %d senders first seen while the node did its 30 s housekeeping never got a stream-requested event", unserved, len(late)), nil)
+	}
+}
+
 func TestC16(t *testing.T) {
 	rep := vh.NewReport("C16")
 	defer rep.Finish(t)
@@ -960,7 +1046,12 @@ func TestC16(t *testing.T) {
 	if nsh > 1 {
 		// the last child process only runs the long scenario (37 s / 68 s of real time: the 30 s are a constant of the library)
 		if shard == nsh-1 {
+			// next to the long run, in the same child process and over the same 30-odd seconds: new senders that appear exactly
+			// while the node does its 30 s housekeeping
+			hk := make(chan struct{})
+			go func() { defer close(hk); c16housekeepingWindow(rep) }()
 			c16long(rep)
+			<-hk
 			rep.Floor("long_runs", 1)
 			return
 		}
